@@ -782,7 +782,64 @@ def import_module(ip, name):
         return I.Namespace(name, {'quad': I.Builtin('quad', lambda ip, a, k: ip.call(ip.quad_model, a, k))})
     if name == 'sys':
         return I.Namespace('sys', {'platform': 'linux'})
+    if name in ('xml.etree.ElementTree', 'xml.etree', 'xml'):
+        return etree_namespace(ip)
     return I.Opaque(name)
+
+
+SVG_NS = '{http://www.w3.org/2000/svg}'
+
+
+def etree_namespace(ip):
+    """assumed model of xml.etree.ElementTree (DESIGN.md section 2): Element.get, and
+    iterfind('svg:x', ns) yields the children whose tag is '{ns}x' in document order; iter()
+    yields the element and its descendants in document order"""
+    ns = ip.__dict__.get('_etree_ns')
+    if ns is not None:
+        return ns
+
+    def m(fn):
+        b = I.Builtin(fn.__name__, fn)
+        b.is_method = True
+        return b
+
+    def get(ip_, a, k):
+        e = a[0]
+        return e.attrs['attrib'].get(a[1], a[2] if len(a) > 2 else k.get('default'))
+
+    def iterfind(ip_, a, k):
+        e, path = a[0], a[1]
+        nsmap = a[2] if len(a) > 2 else k.get('namespaces', {})
+        pre, _, local = path.partition(':')
+        tag = '{%s}%s' % (nsmap[pre], local) if local else path
+        return I.IterV([ch for ch in e.attrs['children'] if ch.attrs['tag'] == tag])
+
+    def iter_(ip_, a, k):
+        out = []
+
+        def walk(e):
+            out.append(e)
+            for ch in e.attrs['children']:
+                walk(ch)
+        walk(a[0])
+        return I.IterV(out)
+    cls = I.ClassV('Element', [], {'get': m(get), 'iterfind': m(iterfind), 'iter': m(iter_)}, 'xml.etree.ElementTree.Element')
+    ns = I.Namespace('xml.etree.ElementTree', {
+        'Element': cls, 'SubElement': I.Opaque('SubElement'), 'ElementTree': I.Opaque('ElementTree'),
+        'register_namespace': I.Builtin('register_namespace', lambda ip_, a, k: None),
+        'iterparse': I.Builtin('iterparse', lambda ip_, a, k: ip_.call(ip_.iterparse_model, a, k)),
+        'etree': None})
+    ns.attrs['etree'] = ns
+    ns.attrs['ElementTree'] = ns   # `import xml.etree.ElementTree as etree`
+    ip._etree_ns = ns
+    return ns
+
+
+def make_element(ip, local, attrib=None, children=()):
+    ns = etree_namespace(ip)
+    e = I.Obj(ns.attrs['Element'])
+    e.attrs.update(tag=SVG_NS + local, attrib=dict(attrib or {}), children=list(children))
+    return e
 
 
 def _itemgetter(ip, args, kwargs):
